@@ -1,15 +1,87 @@
-import TjdModel.Autojac.Spec
+/-
+  C20 — A call rejected for its arguments changes nothing.
+
+  PROPERTY THEOREMS ONLY (statements fixed; helper lemmas in TjdLemmas/MtlLemmas.lean).
+  The model is the code after the `fix:` commits (validation of every parameter before the first write).
+-/
+import Mathlib.Algebra.Ring.Defs
+import TjdModel.Autojac.MtlSpec
+import TjdLemmas.AutojacLemmas
+import TjdLemmas.MtlLemmas
 namespace Tjd.Props.C20
 open Tjd Tjd.Autojac
 
-theorem accumulate_rejected_unchanged {α : Type} [Add α] (E : Engine α) (g : GDict α) (h : Grads α)
+variable {α : Type} [Zero α] [One α] [Add α] [Mul α]
+
+/-- `backward`: WHATEVER goes wrong (bad chunk size, empty or duplicate tensors, a parameter the engine
+    refuses, an aggregator that rejects the Jacobian or returns a vector of the wrong length, a
+    parameter that does not expect a gradient at any position), no `.grad` has been modified. -/
+theorem backward_rejected_changes_nothing (E : Engine α) (tensors inputs : List Key)
+    (A : Mat α → Except Err (Vec α)) (chunk : Option Int) (retain : Bool) (h : Grads α) (e : Err)
+    (herr : (backward E tensors inputs A chunk retain h).err = some e) :
+    (backward E tensors inputs A chunk retain h).grads = h := by
+  sorry
+
+/-- a parameter that is neither a leaf requiring grad nor retains grad is always rejected, whatever its
+    position among valid inputs -/
+theorem backward_bad_param_rejected (E : Engine α) (tensors inputs : List Key)
+    (A : Mat α → Except Err (Vec α)) (chunk : Option Int) (retain : Bool) (h : Grads α)
+    (bad : Key) (hb : bad ∈ inputs) (hbad : E.expectsGrad bad = false) :
+    (backward E tensors inputs A chunk retain h).err ≠ none ∧
+    (backward E tensors inputs A chunk retain h).grads = h := by
+  sorry
+
+/-- the argument faults of `mtl_backward` named by the property -/
+def MtlArgFault (E : Engine α) (ndim : Key → Nat) (losses features : List Key)
+    (tps : List (List Key)) (shared : List Key) (chunk : Option Int) : Prop :=
+  (∃ c, chunk = some c ∧ c ≤ 0) ∨ features = [] ∨ losses = [] ∨ (∃ l ∈ losses, 0 < ndim l) ∨
+  losses.length ≠ tps.length ∨ (∃ p ∈ tps.flatten, p ∈ shared) ∨
+  (∃ tp ∈ tps, ¬ (tp ++ features).Nodup) ∨ ¬ features.Nodup ∨ ¬ shared.Nodup ∨
+  (∃ p ∈ shared ++ tps.flatten, E.expectsGrad p = false)
+
+/-- `mtl_backward`: every argument fault is reported as `ValueError` before any `.grad` is modified and
+    before the graph is traversed, whatever the position of the offending argument -/
+theorem mtl_rejected_changes_nothing (E : Engine α) (ndim : Key → Nat) (losses features : List Key)
+    (tps : List (List Key)) (shared : List Key) (A : Mat α → Except Err (Vec α))
+    (chunk : Option Int) (retain : Bool) (h : Grads α)
+    (hf : MtlArgFault E ndim losses features tps shared chunk) :
+    (mtlBackward E ndim losses features tps shared A chunk retain h).err = some Err.value ∧
+    (mtlBackward E ndim losses features tps shared A chunk retain h).grads = h ∧
+    (mtlBackward E ndim losses features tps shared A chunk retain h).sweeps = [] := by
+  sorry
+
+/-- the faults of `backward` named by the property are all reported as `ValueError` -/
+theorem backward_arg_faults (E : Engine α) (tensors inputs : List Key)
+    (A : Mat α → Except Err (Vec α)) (chunk : Option Int) (retain : Bool) (h : Grads α)
+    (hf : (∃ c, chunk = some c ∧ c ≤ 0) ∨ tensors = [] ∨ ¬ tensors.Nodup) :
+    (backward E tensors inputs A chunk retain h).err = some Err.value ∧
+    (backward E tensors inputs A chunk retain h).sweeps = [] := by
+  sorry
+
+/-- `Accumulate` alone: if any key does not expect a gradient, nothing is written -/
+theorem accumulate_rejected_unchanged (E : Engine α) (g : GDict α) (h : Grads α)
     (hbad : ∃ kv ∈ g, E.expectsGrad kv.1 = false) :
     accumulateT E g h = (h, some Err.value) := by
-  unfold accumulateT
-  have : g.all (fun kv => E.expectsGrad kv.1) = false := by
-    rw [List.all_eq_false]
-    obtain ⟨kv, hm, hk⟩ := hbad
-    exact ⟨kv, hm, by simp [hk]⟩
-  simp [this]
+  sorry
+
+/-- non-vacuity / history: BEFORE the fix the property was false.  `accumulateOld` is the code as it
+    was (check and write key by key): a bad key after a good one leaves the good one written. -/
+def accumulateOld (E : Engine α) (g : GDict α) (h : Grads α) : Grads α × Option Err :=
+  g.foldl (fun (st : Grads α × Option Err) (kv : Key × Vec α) =>
+    match st.2 with
+    | some _ => st
+    | none =>
+      if !E.expectsGrad kv.1 then (st.1, some Err.value)
+      else match st.1 kv.1 with
+        | some old => (st.1.set kv.1 (some (vadd old kv.2)), none)
+        | none => (st.1.set kv.1 (some kv.2), none))
+    (h, none)
+
+theorem old_accumulate_partial_write :
+    let E : Engine Int := { numel := fun _ => 1, jac := fun _ _ => none, requiresGrad := fun _ => true,
+                            expectsGrad := fun k => k == 0 }
+    let r := accumulateOld E [(0, [5]), (1, [7])] (fun _ => none)
+    r.2 = some Err.value ∧ r.1 0 = some [5] := by
+  sorry
 
 end Tjd.Props.C20
